@@ -102,6 +102,7 @@ type genesis struct {
 	// lookup anchors of work reports against it
 	withAncestry bool
 	sharedAuthorizers bool
+	permutedSets      bool
 	specialKeys       int // storage entries whose state key has a chosen second octet
 	specialIDs   int // services whose identifier comes from the pool of special magnitudes / octet patterns
 }
@@ -125,12 +126,22 @@ func mkGenesis(t *sim.Tape) *genesis {
 	st.Kappa = append(types.ValidatorsData(nil), vd...)
 	st.Lambda = append(types.ValidatorsData(nil), vd...)
 	st.Gamma.GammaK = append(types.ValidatorsData(nil), vd...)
+	// two histories in three: the staging, pending, active and previous validator sets hold the six validators in
+	// DIFFERENT orders, so that "validator index v" means another validator before and after an epoch change
+	if t.Prob(2, 3, "permuted_validator_sets") {
+		g.permutedSets = true
+		for _, set := range []*types.ValidatorsData{&st.Iota, &st.Kappa, &st.Lambda, &st.Gamma.GammaK} {
+			for i, j := range t.Perm(len(vd), "validator_set_order") {
+				(*set)[i] = vd[j]
+			}
+		}
+	}
 	for i := range st.Eta {
 		copy(st.Eta[i][:], t.Bytes(4, "eta"))
 		st.Eta[i][31] = byte(i + 1)
 	}
 	var keys []types.BandersnatchPublic
-	for _, v := range vd {
+	for _, v := range st.Gamma.GammaK {
 		keys = append(keys, v.Bandersnatch)
 	}
 	z, err := safrole.GetBandersnatchRingRootCommitment(keys)
